@@ -274,7 +274,7 @@ func (c c06Case) String() string {
 func TestVerifC06(t *testing.T) {
 	r := ev.Begin("C06", "histories")
 	defer r.End(t)
-	r.Rule = "histories = all sequences of <=K events, event = (solicitation from :: | unicast solicitation) x gap to the previous event in {0, 100ms, 1s, 2.9s, 3s-1ns, 3s, 3.1s, 6s}, or a link-state change (tear-down and re-initialisation) or a transient failure (ENOBUFS) of the next scheduled multicast transmission, each x gap {100ms, 1s, 3.1s, 6s}, injected into the real Advertiser with min=max=4s (periodic ticks at 0,4,8,... interleave) and min=max=60s (long quiet periods; quick: histories <=2) under the virtual clock in the canonical schedule; oracle on virtual WriteTo timestamps to ff02::1, per connection generation from its initial RA: consecutive >= 3s apart, every trigger (tick or :: solicitation) served within 3s, unicast answers conserved; states = histories executed, transitions = scheduler steps; non-trivial = history has >=1 event; distinct = distinct history"
+	r.Rule = "histories = all sequences of <=K events, event = (solicitation from :: | unicast solicitation) x gap to the previous event in {0, 100ms, 1s, 2.9s, 3s-1ns, 3s, 3.1s, 6s}, or a link-state change (tear-down and re-initialisation) or a transient failure (ENOBUFS) of the next scheduled multicast transmission, each x gap {100ms, 1s, 3.1s, 6s}, injected into the real Advertiser with min=max=4s (periodic ticks at 0,4,8,... interleave) and min=max=60s (long quiet periods; quick: histories <=2), plus bursts of 4, 5, 6 and 9 solicitations (unicast / from :: / alternating; 0, 0.1, 1 s apart; at start and after a solicited multicast RA), under the virtual clock in the canonical schedule; oracle on virtual WriteTo timestamps to ff02::1, per connection generation from its initial RA: consecutive >= 3s apart, every trigger (tick or :: solicitation) served within 3s, unicast answers conserved; states = histories executed, transitions = scheduler steps; non-trivial = history has >=1 event; distinct = distinct history"
 	r.Assumptions = []string{"canonical schedule per history (goroutine interleavings are C07/C08's subject)", "random delay draws at their default (0) answer"}
 	if r.Replay != nil {
 		var c c06Case
@@ -356,6 +356,41 @@ func TestVerifC06(t *testing.T) {
 		return true
 	})
 	r.Max("max_depth", int64(K))
+
+	// Bursts beyond K: n solicitations (all unicast / all from :: / alternating) within
+	// 0, 100 ms or 1 s of each other, right after start and 3.1 s after a solicitation
+	// from :: (more requests at once than any "coalesce a burst" heuristic would wait for).
+	for _, n := range []int{4, 5, 6, 9} {
+		for _, gap := range []time.Duration{0, 100 * time.Millisecond, time.Second} {
+			for _, kind := range []string{"U", "M", "UM"} {
+				for _, lead := range []bool{false, true} {
+					idx++
+					if !r.Mine(idx) {
+						continue
+					}
+					c := c06Case{}
+					if lead {
+						c.Events = append(c.Events, c06Event{Multicast: true, Gap: 3100 * time.Millisecond})
+					}
+					for i := 0; i < n; i++ {
+						g := gap
+						if i == 0 {
+							g = 100 * time.Millisecond
+						}
+						c.Events = append(c.Events, c06Event{Multicast: kind == "M" || (kind == "UM" && i%2 == 1), Gap: g})
+					}
+					x, _, vs := c06Run(t, c)
+					r.Case(c.String(), true)
+					r.Count("states", 1)
+					r.Count("transitions", int64(x.Steps))
+					r.Count("traces_validated_against_impl", 1)
+					for _, v := range vs {
+						r.Violation(v[0], "history "+c.String()+": "+v[1], c)
+					}
+				}
+			}
+		}
+	}
 
 	// Thorough tier: for every history of up to 2 events also every goroutine schedule
 	// with one deviation from the canonical one (orders of a tick, a solicitation and
